@@ -10,7 +10,8 @@
 
 static CC_PQueue *pq;
 static int cmp_mode;   /* 0 = numeric, 1 = v % 10 */
-static void shim_reset(void) { pq = NULL; cmp_mode = 0; }
+static int sparse;     /* obs=sparse: no content sweep after an operation, only on `observe` */
+static void shim_reset(void) { pq = NULL; cmp_mode = 0; sparse = 0; }
 
 static unsigned long long key_of(unsigned long long v) { return cmp_mode ? v % 10 : v; }
 static int cmp_fn(const void *a, const void *b) {
@@ -18,7 +19,7 @@ static int cmp_fn(const void *a, const void *b) {
     return ka > kb ? 7 : ka < kb ? -3 : 0;      /* deliberately not -1/0/1 */
 }
 
-static void obs_abs(void) {
+static void obs_sweep(void) {
     O_LIST("abs");
     if (pq) {
         CC_PQueue copy = *pq;
@@ -31,6 +32,7 @@ static void obs_abs(void) {
     }
     o_end();
 }
+static void obs_abs(void) { if (!sparse) obs_sweep(); }
 static int have_out; static unsigned long long out_val;
 static void phys(void) {
     if (!pq) { o("-"); return; }
@@ -53,6 +55,7 @@ static void do_op(Cmd *c) {
     if (is_op(c, "new") || is_op(c, "new_default")) {
         pq = NULL;
         cmp_mode = !strcmp(kv_str(c, "cmp", "num"), "mod");
+        sparse = !strcmp(kv_str(c, "obs", "full"), "sparse");
         enum cc_stat st;
         if (is_op(c, "new")) {
             CC_PQueueConf conf; cc_pqueue_conf_init(&conf, cmp_fn);
@@ -64,6 +67,8 @@ static void do_op(Cmd *c) {
         if (st != CC_OK) pq = NULL;
         o_stat(st); o(" ");
     } else if (!pq) { o("st=- nosession"); o_sep(); o("-"); return;
+    } else if (is_op(c, "observe")) {
+        o("st=- "); obs_sweep(); o_sep(); phys(); return;
     } else if (is_op(c, "push")) {
         enum cc_stat st = cc_pqueue_push(pq, PTR(pos_u64(c, 0)));
         o_stat(st); o(" ");
